@@ -25,10 +25,13 @@ fn messages() -> Vec<Vec<u8>> {
         b"#HY000 looks like a state".to_vec(),
         b"nul\0inside".to_vec(),
         b"\xffleading".to_vec(),
+        // valid UTF-8 beyond ASCII: every character below U+0100 / wider characters
+        "caf\u{e9} \u{fc}ber na\u{ef}ve".as_bytes().to_vec(),
+        "\u{20ac}uro \u{65e5}\u{672c} \u{1f600}".as_bytes().to_vec(),
     ]
 }
 
-const SITES: [&str; 12] = [
+const SITES: [&str; 13] = [
     "init via COM_INIT_DB",
     "init via USE",
     "prepare",
@@ -41,6 +44,7 @@ const SITES: [&str; 12] = [
     "finish_error after 0 rows (binary)",
     "finish_error after rows (binary)",
     "execute error after finish_one (binary)",
+    "query error after the statement SET NAMES latin1 was served",
 ];
 
 struct Sites {
@@ -128,7 +132,8 @@ fn run_site(ki: usize, site: usize, msg: Vec<u8>, hs: Option<u64>, st: &mut Stat
             8 => (vec![q(b"x")], vec![WOp::Start(c2.clone()), WOp::WriteCol(Val::I32(1)), WOp::WriteCol(Val::Null), WOp::FinishError(kind, msg.clone())], false, false),
             9 => (vec![ClientCmd::new(with_byte(COM_STMT_PREPARE, b"id=1 p=0")), ClientCmd::new(cmd_execute(1, 0, 1, &[]))], vec![WOp::Start(c2.clone()), WOp::FinishError(kind, msg.clone())], false, false),
             10 => (vec![ClientCmd::new(with_byte(COM_STMT_PREPARE, b"id=1 p=0")), ClientCmd::new(cmd_execute(1, 0, 1, &[]))], vec![WOp::Start(c2.clone()), row(), WOp::FinishError(kind, msg.clone())], false, false),
-            _ => (vec![ClientCmd::new(with_byte(COM_STMT_PREPARE, b"id=1 p=0")), ClientCmd::new(cmd_execute(1, 0, 1, &[]))], vec![WOp::Start(c2.clone()), row(), WOp::FinishOne, WOp::Error(kind, msg.clone())], false, false),
+            11 => (vec![ClientCmd::new(with_byte(COM_STMT_PREPARE, b"id=1 p=0")), ClientCmd::new(cmd_execute(1, 0, 1, &[]))], vec![WOp::Start(c2.clone()), row(), WOp::FinishOne, WOp::Error(kind, msg.clone())], false, false),
+            _ => (vec![q(b"SET NAMES latin1"), q(b"x")], vec![WOp::Error(kind, msg.clone())], false, false),
         };
         let mut cmds = cmds;
         cmds.push(ping());
@@ -150,6 +155,7 @@ fn run_site(ki: usize, site: usize, msg: Vec<u8>, hs: Option<u64>, st: &mut Stat
             Cb::Init(_) if behave_init => Behavior::InitErr(kind, m2.clone()),
             Cb::Prepare(t) if behave_prep && t == "x" => Behavior::PrepError(kind, m2.clone()),
             Cb::Prepare(_) => Behavior::PrepReply { id: 1, params: param_cols(0), cols: param_cols(0) },
+            Cb::Query(t) if t.starts_with("SET ") => Behavior::Prog(Arc::new(vec![WOp::Completed(0, 0)])),
             Cb::Query(_) | Cb::Execute { .. } => Behavior::Prog(prog.clone()),
             _ => Behavior::Silent,
         });
@@ -277,7 +283,7 @@ pub fn build(quick: bool) -> Check {
     Check {
         id: "C13",
         level: "model_checking",
-        rule: format!("every ErrorKind variant of the tree under test ({} variants, list regenerated by build.rs) x 12 reporting sites (init via COM_INIT_DB and USE, prepare, query error fresh / after complete_one / after finish_one, finish_error after 0 rows / rows / a complete unended row in text mode, binary finish_error after 0 rows / rows, binary error after finish_one) x message classes (empty, 1 byte, 512 bytes, 5000 bytes, 70000 bytes in thorough, invalid UTF-8, leading '#', embedded NUL, leading 0xFF), each followed by a sentinel PING; every 97th (thorough: every) kind x all sites x 5 messages (up to 70000 bytes, beyond the max_packet_size these clients announce) again for clients that answered the greeting with the pre-4.1 layout, with CLIENT_PROTOCOL_41 alone, and with libmysqlclient's full set (db, plugin, attributes). Oracle: the decoded ERR carries (kind as u16, kind.sqlstate(), message bytes) and mysql_common reads the same; per variant: code <-> kind both ways, (name, code, SQLSTATE) equal the pinned golden table, codes equal the mysql client crate's independent table, 46 documented (code, SQLSTATE) anchors.", KINDS.len()),
+        rule: format!("every ErrorKind variant of the tree under test ({} variants, list regenerated by build.rs) x 13 reporting sites (init via COM_INIT_DB and USE, prepare, query error fresh / after complete_one / after finish_one, finish_error after 0 rows / rows / a complete unended row in text mode, binary finish_error after 0 rows / rows, binary error after finish_one, query error after a served SET NAMES latin1 statement) x message classes (empty, 1 byte, 512 bytes, 5000 bytes, 70000 bytes in thorough, invalid UTF-8, leading '#', embedded NUL, leading 0xFF, valid UTF-8 with all characters below U+0100, valid UTF-8 with wider characters), each followed by a sentinel PING; every 97th (thorough: every) kind x all sites x 6 messages (up to 70000 bytes, beyond the max_packet_size these clients announce) again for clients that answered the greeting with the pre-4.1 layout, with CLIENT_PROTOCOL_41 alone and a latin1 collation, and with libmysqlclient's full set (db, plugin, attributes). Oracle: the decoded ERR carries (kind as u16, kind.sqlstate(), message bytes) and mysql_common reads the same; per variant: code <-> kind both ways, (name, code, SQLSTATE) equal the pinned golden table, codes equal the mysql client crate's independent table, 46 documented (code, SQLSTATE) anchors.", KINDS.len()),
         assumptions: vec![
             "trusted base for SQLSTATEs beyond the 46 anchors: the table pinned in /verif/data equals MariaDB's published one (as the generator comment in errorcodes.rs states); variants added later are checked for self-consistency only".into(),
         ],
@@ -286,7 +292,7 @@ pub fn build(quick: bool) -> Check {
         caps_hit: vec![],
         families: vec![
             Box::new(Sites { msgs }),
-            Box::new(Handshakes { kinds: (0..KINDS.len()).step_by(if quick { 97 } else { 1 }).collect(), msgs: vec![vec![], b"denied #1".to_vec(), vec![b'm'; 600], (0..5000).map(|i| b'A' + (i % 26) as u8).collect(), vec![b'z'; 70_000]] }),
+            Box::new(Handshakes { kinds: (0..KINDS.len()).step_by(if quick { 97 } else { 1 }).collect(), msgs: vec![vec![], b"denied #1".to_vec(), "caf\u{e9} \u{fc}ber".as_bytes().to_vec(), vec![b'm'; 600], (0..5000).map(|i| b'A' + (i % 26) as u8).collect(), vec![b'z'; 70_000]] }),
             Box::new(Tables),
             Box::new(super::aftermath::Aftermath { prop: "C13" }),
         ],
